@@ -242,6 +242,15 @@ pub broadcast proof fn axiom_vec_from_slice(s: &[u8])
     ensures
         #[trigger] <Vec<u8> as vstd::std_specs::convert::FromSpec<&[u8]>>::from_spec(s)@ == s@,
 {}
+/// `u8::from(bool)`: false -> 0, true -> 1
+#[verifier::external_body]
+pub broadcast proof fn axiom_u8_from_bool(b: bool)
+    ensures #[trigger] <u8 as vstd::std_specs::convert::FromSpec<bool>>::from_spec(b) == (if b { 1u8 } else { 0u8 }),
+{}
+#[verifier::external_body]
+pub broadcast proof fn axiom_u8_from_bool_obeys()
+    ensures #[trigger] <u8 as vstd::std_specs::convert::FromSpec<bool>>::obeys_from_spec(),
+{}
 #[verifier::external_body]
 pub broadcast proof fn axiom_ip4_len(a: std::net::Ipv4Addr)
     ensures #[trigger] ip4_octets(a).len() == 4,
@@ -256,7 +265,7 @@ pub broadcast group group_trusted {
     axiom_vecu8_ord, axiom_vecu8_ord2, axiom_vecu8_borrow,
     axiom_contains_borrowed, axiom_maps_borrowed, axiom_removed_borrowed, axiom_vecu8_cmp,
     axiom_vec_ref, axiom_str_ref, axiom_vec_of, axiom_vec_from_str, axiom_vec_from_slice, axiom_vec_from_str_obeys, axiom_vec_from_slice_obeys, axiom_array_ref,
-    axiom_ip4_len, axiom_ip6_len, axiom_is_ws_ascii, axiom_string_str,
+    axiom_ip4_len, axiom_ip6_len, axiom_is_ws_ascii, axiom_string_str, axiom_u8_from_bool, axiom_u8_from_bool_obeys,
 }
 
 /// extensionality axioms have two independent triggers (quadratic instantiation): they are kept out of the default group and
